@@ -4,9 +4,11 @@ package c14
 import (
 	"errors"
 	"fmt"
+	"sync"
 
 	"go.pennock.tech/tabular"
 	"go.pennock.tech/tabular/auto"
+	"go.pennock.tech/tabular/html"
 	"go.pennock.tech/tabular/properties"
 	"go.pennock.tech/tabular/properties/align"
 	"go.pennock.tech/tabular/texttable"
@@ -106,6 +108,7 @@ type propRef struct {
 }
 
 type world struct {
+	cols  [][2]interface{} // what each column (0 = defaults) says for alignment and skipable, as the settings left it
 	t     tabular.Table
 	m     *gen.Model
 	props map[propRef]int
@@ -228,6 +231,18 @@ func (w *world) snapshot(when string) *ev.Violation {
 	if (es == nil) != (w.errs0 == nil) {
 		return ev.V("%s: error list nil-ness changed", when)
 	}
+	for i, want := range w.cols {
+		if i > w.t.NColumns() {
+			break
+		}
+		col := w.t.Column(i)
+		if got := col.GetProperty(align.PropertyType); got != want[0] {
+			return ev.V("%s: column %d now reports alignment %v, it was left at %v", when, i, got, want[0])
+		}
+		if got := col.GetProperty(properties.Skipable); got != want[1] {
+			return ev.V("%s: column %d now reports skipable %v, it was left at %v", when, i, got, want[1])
+		}
+	}
 	for ref, want := range w.props {
 		po, ok := w.abs(ref)
 		if !ok {
@@ -240,10 +255,40 @@ func (w *world) snapshot(when string) *ev.Violation {
 	return nil
 }
 
+// recordCols notes what every column says for the two well-known keys.
+func (w *world) recordCols() {
+	w.cols = w.cols[:0]
+	for i := 0; i <= w.t.NColumns(); i++ {
+		col := w.t.Column(i)
+		w.cols = append(w.cols, [2]interface{}{col.GetProperty(align.PropertyType), col.GetProperty(properties.Skipable)})
+	}
+}
+
+var siblingOnce sync.Once
+
+// sharedTemplateName: every HTML wrapper of this process carries the same template name (a label without effect),
+// and another table has been rendered under that name before: tables do not meet through a name.
+const sharedTemplateName = "c14-shared"
+
+func named(rw auto.RenderTable) auto.RenderTable {
+	if ht, ok := rw.(*html.HTMLTable); ok {
+		ht.TemplateName = sharedTemplateName
+	}
+	return rw
+}
+
 func CheckCase(c Case) *ev.Violation {
+	siblingOnce.Do(func() {
+		sib := html.New()
+		sib.TemplateName = sharedTemplateName
+		sib.AddHeaders("sibling", "table")
+		sib.AddRowItems("rendered", "first")
+		sib.Render()
+	})
 	t, m := gen.Build(c.Script)
 	settings(t, c)
 	w := &world{t: t, m: m, props: map[propRef]int{}, nrows: t.NRows(), ncols: t.NColumns()}
+	w.recordCols()
 	w.errs0 = append([]error(nil), t.Errors()...)
 	if t.Errors() == nil {
 		w.errs0 = nil
@@ -296,6 +341,7 @@ func CheckCase(c Case) *ev.Violation {
 				refs = map[string]ref{}
 				// the content changed on purpose: new baseline for the counts; settings reach new columns too
 				settings(t, c)
+				w.recordCols()
 				w.nrows = len(m.Rows)
 				if m.MaxEver > w.ncols {
 					w.ncols = m.MaxEver
@@ -352,11 +398,11 @@ func CheckCase(c Case) *ev.Violation {
 			var rw auto.RenderTable
 			if a.Reuse {
 				if long[a.Style] == nil {
-					long[a.Style] = auto.Wrap(t, a.Style)
+					long[a.Style] = named(auto.Wrap(t, a.Style))
 				}
 				rw = long[a.Style]
 			} else {
-				rw = auto.Wrap(t, a.Style)
+				rw = named(auto.Wrap(t, a.Style))
 			}
 			fw := &faultWriter{k: a.FaultK, mode: a.FaultMode}
 			err := rw.RenderTo(fw)
@@ -367,11 +413,11 @@ func CheckCase(c Case) *ev.Violation {
 			var rw auto.RenderTable
 			if a.Reuse {
 				if long[a.Style] == nil {
-					long[a.Style] = auto.Wrap(t, a.Style)
+					long[a.Style] = named(auto.Wrap(t, a.Style))
 				}
 				rw = long[a.Style]
 			} else {
-				rw = auto.Wrap(t, a.Style)
+				rw = named(auto.Wrap(t, a.Style))
 			}
 			out, err := rw.Render()
 			want := reference(a.Style)
